@@ -21,6 +21,7 @@ func init() {
 	// static tags need their AST by hand
 	tagAST[`a`] = &EPath{Steps: []*Stp{{Axis: "child", Test: NodeTest{Kind: "name", Local: "a"}}}}
 	tagAST[`b`] = &EPath{Steps: []*Stp{{Axis: "child", Test: NodeTest{Kind: "name", Local: "b"}}}}
+	tagAST[`*`] = &EPath{Steps: []*Stp{{Axis: "child", Test: NodeTest{Kind: "any"}, Abbrev: true}}}
 	tagAST[`count(*)`] = call("count", &EPath{Steps: []*Stp{{Axis: "child", Test: NodeTest{Kind: "any"}, Abbrev: true}}})
 	tagAST[`count(preceding-sibling::*)`] = call("count", &EPath{Steps: []*Stp{{Axis: "preceding-sibling", Test: NodeTest{Kind: "any"}}}})
 	// Go types cannot be rebuilt from a file: the family is re-run from the recorded seed and
@@ -75,6 +76,20 @@ type unexp5 struct {
 		X string `xsel:"a"`
 	} `xsel:"b"`
 	D []string `xsel:"b"`
+}
+
+// a nested slice of structs whose elements fail or succeed depending on the data (a struct field needs a non-empty
+// node-set): used from many nodes in one run, so that failures half-way through a slice are followed by ordinary
+// calls with the same type
+type afterRow struct {
+	Name string `xsel:"a"`
+	Sub  struct {
+		V string `xsel:"count(*)"`
+	} `xsel:"b"`
+}
+type afterTop struct {
+	Rows []afterRow `xsel:"*"`
+	N    int        `xsel:"count(*)"`
 }
 
 // two DIFFERENT struct types with the same package-qualified name (function-local types), the same field names
@@ -526,7 +541,7 @@ func famC19(rn *Runner) {
 			case k < 8:
 				bt = u.structType(2)
 			case k == 8:
-				bt = pick(r, []reflect.Type{reflect.TypeOf(unexp{}), reflect.TypeOf(unexp3{}), reflect.TypeOf(unexp4{}), sameNameA(), sameNameB(), reflect.SliceOf(sameNameB()), reflect.SliceOf(sameNameA())})
+				bt = pick(r, []reflect.Type{reflect.TypeOf(unexp{}), reflect.TypeOf(unexp3{}), reflect.TypeOf(unexp4{}), sameNameA(), sameNameB(), reflect.SliceOf(sameNameB()), reflect.SliceOf(sameNameA()), reflect.TypeOf(afterTop{}), reflect.TypeOf(afterTop{}), reflect.TypeOf(afterTop{})})
 			case k == 9:
 				bt = pick(r, []reflect.Type{reflect.TypeOf(unexp2{}), reflect.TypeOf(unexp5{}), reflect.TypeOf([]unexp3{}), reflect.TypeOf(struct {
 					A string `xsel:"a"`
